@@ -99,6 +99,7 @@ pub fn digest<C: Pv>(c: &Case, level: u8) -> Result<Vec<(String, u64)>, String> 
         recompose: c.prog.recompose_npo,
         debug_lookups: false,
         poseidon2: None,
+        poseidon1: None,
     };
     let setup = match C::setup(&circuit, &pk, &npo) {
         Ok(s) => s,
